@@ -201,7 +201,8 @@ func (lm *LineMatch) ToProto() *webserverv1.LineMatch {
 }
 
 func SymbolFromProto(p *webserverv1.SymbolInfo) *Symbol {
-	if p == nil {
+	// A nil element of a repeated field arrives as an empty message.
+	if p == nil || (p.GetSym() == "" && p.GetKind() == "" && p.GetParent() == "" && p.GetParentKind() == "") {
 		return nil
 	}
 
